@@ -222,6 +222,8 @@ def writer_sites(w, fn, out_param=2, depth=0):
                 if not vals or vals[-1][0] not in ("i", "ch") or vals[-1][1] != x[1]:
                     raw_ok = False
                 pre = vals[:-1]
+                if len(pre) > 1:
+                    raw_ok = False   # more than one unit in front of the iterated unit (or the unit pushed twice)
                 if pre:
                     escaped.add(x[1])
                 for v in pre:
@@ -290,3 +292,77 @@ def writer_sites(w, fn, out_param=2, depth=0):
                     sites.append(s)
                 consts.extend(sub_consts)
     return sites, consts
+
+
+def tag_slot_tables(w, fn, marker, out_param=2, depth=0):
+    """loops of a writer (and of helpers that receive its buffer) that push the tag marker: for each, the element type of
+    the iteration and, per Option variant of the element, how many markers are pushed.
+    Returns [(fn, header bb, element type, {variant: set(marker pushes per path)})]"""
+    b = C.body(w, fn)
+    it = absint.Interp(w, b, models=effects.EXTRA_MODELS, summaries=C.summaries(w))
+    cf = cfgmod.cfg_of(b)
+    loops = cf.natural_loops()
+    out_root = (("A", out_param),)
+    res = []
+
+    def is_marker_push(e, o):
+        if e[0] != "call" or not ((e[2] or "").endswith("String::push") or (e[2] or "").endswith("Vec::push")):
+            return False
+        if not e[3] or e[3][0][0] != "ref" or absint._coll_path(e[3][0])[:1] != out_root:
+            return False
+        # a literal operand only: an iterated character that merely equals the marker on this path is content
+        a1 = b.blocks[e[1]]["term"]["args"][1]
+        if "const" not in a1:
+            p1 = a1.get("move") or a1.get("copy")
+            if not p1 or p1["proj"] or p1["local"] not in cf._const_locals():
+                return False
+        v = e[3][1]
+        return v[0] in ("i", "ch") and v[1] == marker
+    for h in sorted(loops):
+        t = b.blocks[h]["term"]
+        if t["k"] != "call" or not (cfgmod.callee(t) or "").endswith("Iterator>::next"):
+            continue
+        # innermost loops only w.r.t. marker pushes: the marker push block must belong to this loop and to no inner loop
+        inner = [g for g in loops if g != h and loops[g] < loops[h]]
+        pre = [o for o in it.run(0, stop=[h]) if o.kind == "stop"]
+        if not pre:
+            continue
+        outs = it.run(h, stop=set(cf.blocks) - loops[h], env=pre[0].env, cons=pre[0].cons, stop_at_entry_again=True, trace=pre[0].trace)
+        n0 = len(pre[0].trace)
+        table = {}
+        any_marker = False
+        for o in outs:
+            if o.kind != "stop" or o.info != h:
+                continue
+            item = o.cons.get("ret:%d" % h)
+            if not item or item[2] != "Some":
+                continue
+            tr = o.trace[n0:]
+            mk = [e for e in tr if is_marker_push(e, o) and not any(e[1] in loops[g] for g in inner)]
+            if mk:
+                any_marker = True
+            var = None
+            for s, c in o.cons.items():
+                if c[0] == "varis" and c[1] == "core::option::Option" and ("ret:%d@Some.0" % h) in s:
+                    var = c[2]
+            table.setdefault(var, set()).add(len(mk))
+        if any_marker:
+            res.append((fn, h, C.tyn(b.locals[t["dest"]["local"]]["ty"]), table))
+    # helpers receiving the buffer
+    if depth < 2:
+        seen = set()
+        for bb, tt in cfgmod.calls(b):
+            c = cfgmod.callee(tt) or ""
+            if w.body(c) is None or c in seen or c == fn:
+                continue
+            cb = w.body(c)
+            for j, a in enumerate(tt["args"]):
+                p = a.get("move") or a.get("copy")
+                if p and not p["proj"] and C.tyn(b.locals[p["local"]]["ty"]).startswith("&mut S::string::String") or \
+                        (p and not p["proj"] and C.tyn(b.locals[p["local"]]["ty"]).startswith("&mut S::vec::Vec<u8>")):
+                    sl = C.backward_slice(b, p["local"], depth=4)
+                    if out_param in sl[2] or True:
+                        seen.add(c)
+                        res.extend(tag_slot_tables(w, c, marker, out_param=j + 1, depth=depth + 1))
+                        break
+    return res
